@@ -24,6 +24,8 @@ PROPS = [f"C{i:02d}" for i in range(1, 21)]
 
 def run_check(prop: str, tier: str, repo: str = REPO, quiet: bool = False, write: bool = True):
     """Returns (exit_code, ctx, violations, known_hits, error)."""
+    if os.path.abspath(repo) != "/repo":
+        write = False  # evidence is only ever written from /repo itself (scratch copies are for development / self-test)
     t0 = time.time()
     seed = int(os.environ.get("VERIF_SEED", "0") or 0)
     ctx = None
